@@ -78,8 +78,10 @@ def gen(case_lines, outdir, nunits=16):
         out = ['#include "vh_ops.h"', "namespace verif {", "namespace {"]
         for k in sorted(need):
             out.append("// %s" % k)
-            out.append("struct %s { template <typename T> static auto make([[maybe_unused]] const Factors<T> &fs) { return %s; } };"
-                       % (names[k], cxx(asts[k])))
+            # expressions with float/double literals cannot be built for the exact scalar (no conversion from floating point)
+            exactable = "false" if ('"t":"flt"' in k or '"t":"dbl"' in k) else "true"
+            out.append("struct %s { static constexpr bool exactable = %s; template <typename T> static auto make([[maybe_unused]] const Factors<T> &fs) { return %s; } };"
+                       % (names[k], exactable, cxx(asts[k])))
         for n, (kind, k) in enumerate(mine):
             if kind == "A":
                 out.append("RegApply<%s> ra%d(%s);" % (names[k], n, cstr(k)))
